@@ -33,5 +33,5 @@ Theorem C01_decode_full_returns_when_decode_does :
   forall (fuel : nat) (oc : bool) (fl : file) (sch : schema) (id : string) (bs : list byte),
     returns (rust_decode fuel oc fl sch id bs) ->
     returns (decode_full value (rust_decode fuel oc fl sch id) bs).
-Proof. intros. apply decode_full_total. assumption. Qed.
+Proof. intros fuel oc fl sch id bs H. apply decode_full_total. exact H. Qed.
 Print Assumptions C01_decode_full_returns_when_decode_does.
